@@ -298,7 +298,9 @@ def rule_origin(ctx, rep):
         if 'tokenize_block' in txt and cls not in readers:
             readers.append(cls)
     if len(readers) < 2:
-        raise AnalysisError('fewer than two readers re-tokenize a buffer (anchors vanished): %s' % [c.short for c in readers])
+        rep.note('only %d reader(s) re-tokenize a buffer in read(): %s' % (len(readers), [c.short for c in readers]))
+    if len(readers) < 1:
+        raise AnalysisError('no reader re-tokenizes a buffer (anchors vanished): %s' % [c.short for c in readers])
     n_calls = 0
     for cls in readers:
         rd = cls.lookup('read')[1]
